@@ -14,6 +14,7 @@ mod config;
 mod filters;
 mod astjson;
 mod astsynth;
+mod gen;
 mod evaluator;
 
 fn main() {
@@ -35,6 +36,7 @@ fn main() {
         Some("text") => text::main(&args[1..]),
         Some("astcheck") => astjson::main_astcheck(&args[1..]),
         Some("astjson") => astjson::main_astjson(&args[1..]),
+        Some("gen") => gen::main(&args[1..]),
         Some("version") => {
             println!("dlv 0.1");
             0
